@@ -59,7 +59,8 @@ ok = (out["demo_clean"]["exit"] == 0 and out.get("apply") == 0 and out["suite_ch
 out["confirmed"] = ok
 print(json.dumps(out, indent=1))
 if ok:
-    rnd = "agent2" if "seed2" in os.path.basename(src_wt) else "agent"
+    b = os.path.basename(src_wt)
+    rnd = "agent3" if "seed3" in b else ("agent2" if "seed2" in b else "agent")
     dst = os.path.join("/verif/seeded", "%s-%s-%s" % (prop, rnd, n))
     os.makedirs(dst, exist_ok=True)
     for f in os.listdir(sd):
